@@ -120,13 +120,14 @@ CtxOf(kd, rt) == {x \in Ctxs : /\ x = "py" => kd \in {"cpdef", "cpmeth"}
                                /\ x = "fptr" => kd = "cdef"
                                /\ x = "nogil" => (kd \in {"cdef", "meth"} /\ rt # "object")}
 Bodies(rt)    == {"raise", "fall"} \cup Vals(rt)
-LegacyOf(kd)  == IF kd \in {"cdef", "meth"} THEN Legacy ELSE Legacy \ {TRUE}
+\* (the legacy directive is studied on the base types only: it does not depend on the width of the return type)
+LegacyOf(kd, rt) == IF kd \in {"cdef", "meth"} /\ rt \in BaseRT THEN Legacy ELSE Legacy \ {TRUE}
 PtrSpecs(rt)  == UNION {{<<ps, pv>> : pv \in SvOf(ps, rt)} : ps \in Specs}
 PtrOf(x, sp, sv, rt) == IF x # "fptr" THEN {<<"none", "none">>}
                         ELSE IF CrossPtr /\ rt \in BaseRT THEN PtrSpecs(rt) ELSE {<<sp, sv>>}
 Cases == UNION {UNION {UNION {UNION {UNION {
            {[kind |-> kd, spec |-> sp, rt |-> rt, sv |-> sv, body |-> b, ctx |-> x, pspec |-> p[1], psv |-> p[2], lg |-> lg] :
-               b \in Bodies(rt), p \in PtrOf(x, sp, sv, rt), lg \in LegacyOf(kd)}
+               b \in Bodies(rt), p \in PtrOf(x, sp, sv, rt), lg \in LegacyOf(kd, rt)}
            : x \in CtxOf(kd, rt)} : sv \in SvOf(sp, rt)} : sp \in Specs} : rt \in RTOf(kd)} : kd \in Kinds}
 
 ---------------------------------------------------------------------------
